@@ -333,6 +333,11 @@ def expireAndPurge (cfg : Cfg) (n : Node) (a : Armed) (exp : Option Nat) : Node 
     | (n, true) => (n, none)
     | (n, false) => (n, some "NoSpace")
 
+/-- the same from `check_timeouts` (im.rs:687): a failing store of the purged cache is logged, not
+returned (an error would end `InteractionModel::run`); only the error of `expire` itself is -/
+def expireAndPurgeLenient (cfg : Cfg) (n : Node) (a : Armed) (exp : Option Nat) : Node × Option String :=
+  ((expireAndPurge cfg n a exp).1, (expireArmed cfg n a exp).2.1)
+
 def expire (cfg : Cfg) (n : Node) (exp : Option Nat) : Node × Option String :=
   match n.fs with
   | none => (n, none)
@@ -353,7 +358,7 @@ def expSid (n : Node) (sid : Option Nat) : Option Nat :=
 def checkTimeouts (cfg : Cfg) (n : Node) (sid : Option Nat) : Node × Option String :=
   let r : Node × Option String :=
     match n.fs with
-    | some a => if n.now ≥ a.armedAt + a.timeout then expireAndPurge cfg n a (expSid n sid) else (n, none)
+    | some a => if n.now ≥ a.armedAt + a.timeout then expireAndPurgeLenient cfg n a (expSid n sid) else (n, none)
     | none => (n, none)
   match r.2 with
   | some e => (r.1, some e)
@@ -430,8 +435,7 @@ def sessOp (cfg : Cfg) (n : Node) (sid : Nat) (mode : Mode) : Op → Node × Sta
   | .arm _ secs =>
     -- gen_comm.rs:351
     if secs = 0 then
-      let exp := if mode.isPase then some sid else none
-      match expire cfg n exp with
+      match expire cfg n (some sid) with
       | (n, none) => ok n
       | (n, some e) => (n, .err e)
     else
@@ -604,8 +608,7 @@ def sessOp (cfg : Cfg) (n : Node) (sid : Nat) (mode : Mode) : Op → Node × Sta
     else (n, .err "InvalidFabricIndex")
   | .revoke _ =>
     -- adm_comm.rs:255
-    let exp := if mode.isPase then some sid else none
-    match expire cfg n exp with
+    match expire cfg n (some sid) with
     | (n, some e) => (n, .err e)
     | (n, none) => ok { n with window := none }
   | _ => (n, .err "bad")
